@@ -1198,6 +1198,10 @@ def mio_summaries():
         r = deref(ex, st, argv[0])
         return [(st, Bool((r.fields[0].bv & WRITABLE) != 0))]
 
+    @reg(r'^(mio::)?PollOpt::(level|oneshot)$')
+    def popt_other(ex, st, fn, argv):
+        return [(st, Agg({}, 'mio::PollOpt', fn.rsplit('::', 1)[1]))]
+
     @reg(r'^(mio::)?PollOpt::edge$')
     def p_edge(ex, st, fn, argv):
         return [(st, Agg({}, 'mio::PollOpt', 'edge'))]
